@@ -106,8 +106,23 @@ func (t *tcpTransport) SetEncryption(ctx context.Context, e SessionEncryption) e
 		return err
 	}
 
+	// The handshake is also interrupted when the context is canceled,
+	// and not only when its deadline (if any) is reached
+	handshakeDone := make(chan struct{})
+	defer close(handshakeDone)
+	go func() {
+		select {
+		case <-ctx.Done():
+			_ = tlsConn.SetDeadline(time.Now())
+		case <-handshakeDone:
+		}
+	}()
+
 	// We convert existing connection to TLS
 	if err := tlsConn.Handshake(); err != nil {
+		if ctx.Err() != nil {
+			return fmt.Errorf("tcp transport: set encryption: %w", ctx.Err())
+		}
 		return err
 	}
 
